@@ -5,6 +5,7 @@ import (
 	"encoding/json"
 	"fmt"
 	"strings"
+	"sync/atomic"
 
 	"verif/engine/core"
 	"verif/ref/rules"
@@ -57,7 +58,7 @@ type tc struct {
 }
 
 func Run(r *core.Run) {
-	r.Rule = "valid patches of all actions and shapes + one labelled mutation per constraint: id lengths 0/1/50/51 and each forbidden character class, duplicates, every missing/extra member, JWK members, " +
+	r.Rule = "valid patches of all actions and shapes + one labelled mutation per constraint: id lengths 0/1/50/51 and each forbidden character class, every code point of the BMP (thorough: planes 0-2) as an id character in 3 actions, duplicates, every missing/extra member, JWK members, " +
 		"the full matrix 6 key types x (32 purpose subsets in thorough / 5 single purposes + general + pairs in quick) x {JWK, base58}, service type lengths 0/1/30/31, endpoint shapes incl. lists with a bad i-th entry (i=1..3) and all 258 lists of length 1-3 over {URI, empty, unparsable, object, number, list} entries, " +
 		"also-known-as, remove lists, replace documents; IsValidOriginalDocument of both validators; oracle both directions; distinct = distinct patch texts; non-trivial = all"
 	r.Assumptions = []string{"independent predicate ref/rules written from the statement and the documented type x purpose table",
@@ -328,6 +329,51 @@ func Run(r *core.Run) {
 			r.Class("invalid")
 		}
 	})
+	// the id alphabet, character by character: every code point of the Basic Multilingual Plane (thorough: planes 0-2), alone and
+	// after an allowed character, as key id, service id and in a remove list; only [A-Za-z0-9_-] may pass
+	{
+		last := rune(0xFFFF)
+		if r.Thorough() {
+			last = 0x2FFFF
+		}
+		const chunk = 1024
+		var swept atomic.Int64
+		core.Parallel(int(last+1)/chunk, func(ci int) {
+			var n int64
+			for cp := rune(ci * chunk); cp < rune((ci+1)*chunk); cp++ {
+				if cp >= 0xD800 && cp <= 0xDFFF {
+					continue // surrogates are not characters
+				}
+				for _, id := range []string{string(cp), "a" + string(cp)} {
+					want := rules.ValidID(id)
+					for ai, p := range []M{
+						{"action": "add-public-keys", "publicKeys": []any{key(id, "JsonWebKey2020", "jwk", []any{"authentication"})}},
+						{"action": "add-services", "services": []any{svc(id, "T", "https://ok.example/")}},
+						{"action": "remove-public-keys", "ids": []any{"ok", id}},
+					} {
+						text, _ := json.Marshal(p)
+						label := fmt.Sprintf("id-character/U+%04X/%d/%d", cp, len(id), ai)
+						n++
+						r.Case(label, func() *core.Fail {
+							pp, err := patch.FromBytes(text)
+							if err != nil {
+								core.Engine("c13: generated patch does not parse: %s: %v", text, err)
+							}
+							verr := patchvalidator.Validate(pp)
+							if (verr == nil) != want {
+								return &core.Fail{Key: label, What: fmt.Sprintf("id %q (U+%04X) in %s: validation says %v, the id alphabet says valid=%v", id, cp, p["action"], verr, want),
+									Detail: M{"patch": string(text), "expected_valid": want, "validation_error": fmt.Sprint(verr)}}
+							}
+							return nil
+						})
+					}
+				}
+			}
+			swept.Add(n)
+		})
+		r.Extra["id_character_cases"] = swept.Load()
+		r.AddDistinct(swept.Load())
+	}
 	// original documents
 	type od struct {
 		label, doc string
